@@ -214,7 +214,7 @@ def run(ctx, sf):
         check_spec(ctx, sf, spec, reqs, pending)
     rng = ctx.rng
     nmax = 6 if ctx.tier == "quick" else 9
-    for k in range(ctx.n(250, 2500)):
+    for k in range(ctx.n(1000, 8000)):
         n = rng.randint(1, nmax)
         spec = progs.rand_circuit(rng, n, rng.randint(0, 14), p_meas=0.35)
         marked = ("MeasureFock",) if k % 3 else tuple(rng.sample(["Sgate", "BSgate", "MeasureHomodyne", "Rgate", "LossChannel", "Dgate"], 2))
